@@ -47,7 +47,7 @@ void single_thread() {
     int nops = 3 + dsim::choose(14);
     auto sig = std::make_unique<Sig>();
     Model m; int nl = 0, ncb = 0; long emitted = 0;
-    int cb_quota[2] = {0, 0}; long cb_first[2] = {0, 0}; bool cb_alive[2] = {false, false};
+    int cb_quota[2] = {0, 0}; long cb_first[2] = {0, 0}; bool cb_alive[2] = {false, false}; long nested_first = 0;
     dsim::plan_note("single-thread ops:");
     for (int s = 0; s < nops; s++) {
         int op = dsim::choose(8);
@@ -59,8 +59,14 @@ void single_thread() {
         } else if (op == 1 && ncb < 2) {                // a callback is connected; it stays for cb_quota calls
             int c = ncb++; cb_quota[c] = 1 + (int)dsim::choose(3); cb_first[c] = emitted + 1; cb_alive[c] = true;
             auto tok = std::make_shared<CbToken>(c);
-            sig->connect([c, tok, q = cb_quota[c], first = emitted + 1](long &v) { long n = dsim::cell_add(CB_CALLS + c, 1); if (v != first + n - 1) dsim::cell_set(CB_BAD + c, 1); return n < q; });
-            dsim::plan_note(" CB%d(q%d)", c, cb_quota[c]);
+            // callback 0 may, from inside its first call, connect a further callback (index 2) to the same signal: that one is not
+            // waiting at that moment, so it sees every LATER value, each once, until the signal goes away
+            bool nest = c == 0 && dsim::flip(); if (nest) nested_first = emitted + 2;
+            sig->connect([c, tok, q = cb_quota[c], first = emitted + 1, nest, sp = sig.get()](long &v) {
+                long n = dsim::cell_add(CB_CALLS + c, 1); if (v != first + n - 1) dsim::cell_set(CB_BAD + c, 1);
+                if (nest && n == 1) sp->connect([tok2 = std::make_shared<CbToken>(2), first2 = first + 1](long &v2) { long n2 = dsim::cell_add(CB_CALLS + 2, 1); if (v2 != first2 + n2 - 1) dsim::cell_set(CB_BAD + 2, 1); return true; });
+                return n < q; });
+            dsim::plan_note(" CB%d(q%d%s)", c, cb_quota[c], nest ? ",nests" : "");
         } else if (op >= 2 && op <= 5) {                // an emission, in one of the calling conventions
             long v = ++emitted; auto col = sig->get_collector();
             int how = dsim::choose(4);
@@ -72,6 +78,7 @@ void single_thread() {
             for (int i = 0; i < nl; i++) if (m.waiting[i]) { m.got[i]++; if (m.quota[i] > 0 && m.got[i] >= m.quota[i]) m.waiting[i] = false; }
             for (int c = 0; c < ncb; c++) if (!cb_alive[c]) { if (dsim::cell_get(CB_CALLS + c) != cb_quota[c]) dsim::fail("C15.callback", "callback %d returned false after %d calls but was called %ld times", c, cb_quota[c], dsim::cell_get(CB_CALLS + c)); if (dsim::cell_get(CB_GONE + c) != 1) dsim::fail("C15.callback", "callback %d returned false but was released %ld times", c, dsim::cell_get(CB_GONE + c)); }
             for (int c = 0; c < 2; c++) if (cb_alive[c]) { long n = emitted - cb_first[c] + 1; if (dsim::cell_get(CB_CALLS + c) != n) dsim::fail("C15.callback", "callback %d connected before emission %ld was called %ld times after emission %ld", c, cb_first[c], dsim::cell_get(CB_CALLS + c), emitted); if (n >= cb_quota[c]) cb_alive[c] = false; }
+            if (nested_first) { long want = emitted >= nested_first ? emitted - nested_first + 1 : 0; if (dsim::cell_get(CB_CALLS + 2) != want) dsim::fail(dsim::cell_get(CB_CALLS + 2) < want ? "C15.missed" : "C15.callback", "callback connected from inside callback 0 during emission %ld was called %ld times after emission %ld", nested_first - 1, dsim::cell_get(CB_CALLS + 2), emitted); }
             for (int i = 0; i < nl; i++) check_listener(i, m.first[i], m.first[i] + m.got[i] - 1, false, "after emission");
         } else if (op == 6 && nl < MAXL - 1 && dsim::choose(3) == 0) {   // awaiting a disconnected emitter fails at once
             Sig dead; auto em = dead.get_emitter(); { Sig gone = std::move(dead); }
@@ -81,11 +88,12 @@ void single_thread() {
             dsim::plan_note(" dead"); nl++;
         }
     }
-    for (int c = 0; c < 2; c++) if (dsim::cell_get(CB_BAD + c)) dsim::fail("C15.wrong_value", "callback %d received a wrong value", c);
+    for (int c = 0; c < 3; c++) if (dsim::cell_get(CB_BAD + c)) dsim::fail("C15.wrong_value", "callback %d received a wrong value", c);
     // the last handle goes away: every parked listener ends with await_canceled_exception, callbacks are released
     sig.reset();
     for (int i = 0; i < nl; i++) check_listener(i, m.first[i], m.first[i] + m.got[i] - 1, m.waiting[i], "after disconnect");
     for (int c = 0; c < ncb; c++) if (dsim::cell_get(CB_GONE + c) != 1) dsim::fail("C15.callback", "callback %d released %ld times", c, dsim::cell_get(CB_GONE + c));
+    if (nested_first && dsim::cell_get(CB_CALLS + 0) >= 1 && dsim::cell_get(CB_GONE + 2) != 1) dsim::fail("C15.callback", "callback connected from inside a callback released %ld times", dsim::cell_get(CB_GONE + 2));
 }
 void hook_up_mode() {
     // the listener creates the signal itself on its first await and hands the collector out
